@@ -106,13 +106,18 @@ def gen_driver(proj, r, f, fi, contract, strcap):
          'static double bits2d(uint64_t u){ double d; std::memcpy(&d,&u,8); return d; }',
          'static float bits2f(uint32_t u){ float d; std::memcpy(&d,&u,4); return d; }']
     # ghost section of the contract (macros, static tables, ghost variables)
-    g = contract.emit_ghost()
-    g = re.sub(r'^#line.*$', '', g, flags=re.M)
-    L.append(g)
+    done = set()
+
+    def ghosts(cc):
+        if cc.path in done:
+            return
+        done.add(cc.path)
+        for u in cc.uses:
+            ghosts(T.Contract(T.contract_path(u)))
+        L.append(re.sub(r'^#line.*$', '', cc.emit_ghost(), flags=re.M))
     for spec in r.get('replace_contracts', []):
-        cc = T.Contract(T.contract_path(spec))
-        gg = re.sub(r'^#line.*$', '', cc.emit_ghost(), flags=re.M)
-        L.append(gg)
+        ghosts(T.Contract(T.contract_path(spec)))
+    ghosts(contract)
     L.append('int main() {')
     for k in ('verif_ghost_idx', 'verif_ghost_idx2', 'verif_ghost_idx3', 'verif_ghost_idx4'):
         if k in inp:
